@@ -1,12 +1,13 @@
 (* C08 model runner.  One history per line:
      <id> H <meta> <autosave> <autogc> <N> <T> <node>*N <op>*   (meta = seed.tier.index, ignored)
    node:  <m|b><d|-><s|-> ':' <succ,succ,..|-> ':' <subject|->
-   op:    P<k> | T<k>:<x>:<a|->:<t|d> | U<t> | V<k> | D<k> | G | S | R | C
+   op:    P<k> | T<k>:<x>:<a|->:<t|d> | U<t> | V<k> | D<k> | G | S | R | C | I<k> | X<v|i|a|f><id>
    Output: <id> followed by one token per op: the result, or for C the observation
    of the store and of the store reopened from its directory (printed three times:
    oci.New, NewFromFS, NewFromTar all read the same index.json / blobs). *)
 let fix_f2 = true
 let fix_a = true
+let fix_f1 = true
 
 let ios = int_of_string
 let list_of_commas s = if s = "-" then [] else List.map ios (String.split_on_char ',' s)
@@ -22,8 +23,10 @@ let show_result r = match r with
 let () =
   iter_lines (fun l ->
     match split_ws l with
-    | id :: "H" :: _meta :: asv :: agc :: ns :: ts :: rest ->
+    | id :: "H" :: _meta :: asv :: agc :: ns :: ts :: fs :: rest ->
       let n = ios ns and t = ios ts in
+      let froms = list_of_commas fs in
+      let strays = ref [] and all_strays = ref [] in
       let ismf = Array.make n false and isd = Array.make n false and issk = Array.make n false
       and sc = Array.make n [] and sj = Array.make n None in
       let rec nodes i rest =
@@ -53,20 +56,27 @@ let () =
          pseudo-random orders (seeded by the case id); what is compared is independent
          of them (theorems for index.json / reopening; generator restrictions for the
          AutoGC cascade and the referrer pass of GC) *)
-      let rs = ref (Hashtbl.hash id) in
+      let rs = ref ((try int_of_string (String.sub id 1 (String.length id - 1)) with _ -> 0) * 7919 + 17) in
       let rnd () = rs := (!rs * 1103515245 + 12345) land 0x3fffffff; (!rs lsr 8) land 0xffff in
-      let rlist k = List.init k (fun _ -> nat_of_int (rnd () mod 13)) in
+      let rec rlist k = if k = 0 then [] else let x = nat_of_int (rnd () mod 13) in x :: rlist (k - 1) in
+      let rec rlists n k = if n = 0 then [] else let x = rlist k in x :: rlists (n - 1) k in
+      let rec rpairs n = if n = 0 then [] else let a = rlist 5 in let b = rlist 5 in (a, b) :: rpairs (n - 1) in
+      (* evaluation order fixed by the lets: bin/props.d/C08.py replays the same stream *)
       let orders () =
-        { o_save1 = rlist 10; o_save2 = rlist 10; o_gc1 = rlist 10; o_gc2 = rlist 10;
-          o_del = List.init 8 (fun _ -> (rlist 5, rlist 5)) } in
+        let a = rlist 10 in let b = rlist 10 in let c = rlist 10 in
+        let d = rlists 6 10 in let e = rpairs 8 in
+        { o_save1 = a; o_save2 = b; o_gc1 = c; o_gc2 = d; o_del = e } in
       let do_op o =
-        let (s', r) = step nn mf succs subj sk fix_f2 fix_a cfg !st (o, orders ()) in
+        let (s', r) = step nn mf succs subj sk fix_f2 fix_a fix_f1 cfg !st (o, orders ()) in
         st := s'; Buffer.add_string buf (" " ^ show_result r) in
       let obs s =
         let b = Buffer.create 128 in
         let tags = obs_tags tn s in
         Buffer.add_string b "tags=";
         Buffer.add_string b (String.concat "," (List.map (fun x -> string_of_int (int_of_nat x)) tags));
+        List.iter (fun f ->
+          Buffer.add_string b (Printf.sprintf ";tf%d=%s" f
+            (String.concat "," (List.map (fun x -> string_of_int (int_of_nat x)) (obs_tags_from tn (nat_of_int f) s))))) froms;
         List.iter (fun tg ->
           match obs_resolve_tag s tg with
           | Some d -> Buffer.add_string b (Printf.sprintf ";rt%d=%s" (int_of_nat tg) (show_desc d))
@@ -97,13 +107,45 @@ let () =
         | 'U' -> do_op (OUntag (RTag (nat_of_int (ios arg))))
         | 'V' -> do_op (OUntag (RDig (nat_of_int (ios arg))))
         | 'D' -> do_op (ODelete (nat_of_int (ios arg)))
-        | 'G' -> do_op OGC
+        | 'G' ->
+          let before = Buffer.length buf in
+          do_op OGC;
+          if Buffer.sub buf before (Buffer.length buf - before) = " ok" then
+            strays := List.filter (fun (_, k) -> not (gc_sweeps_stray k)) !strays
+        | 'I' -> do_op (OInject (nat_of_int (ios arg)))
+        | 'X' ->
+          let k = match arg.[0] with 'v' -> SValidName | 'i' -> SInvalidName | 'a' -> SUnknownAlg | _ -> SBlobsFile in
+          strays := !strays @ [("x" ^ arg, k)];
+          all_strays := !all_strays @ ["x" ^ arg];
+          Buffer.add_string buf " ok"
         | 'S' -> do_op OSave
         | 'R' -> do_op OReopen
         | 'C' ->
           let o = obs !st and r = obs (reopen nn mf succs !st) in
-          Buffer.add_string buf (Printf.sprintf " C[%s|%s|%s|%s|v%d]" o r r r (if disk_valid !st then 1 else 0))
+          let xs = String.concat "," (List.map (fun tok ->
+            tok ^ (if List.mem_assoc tok !strays then "=1" else "=0")) !all_strays) in
+          Buffer.add_string buf (Printf.sprintf " C[%s|%s|%s|%s|v%d|x:%s]" o r r r (if disk_valid !st then 1 else 0) xs)
         | _ -> failwith "op") ops;
       Printf.printf "%s%s\n" id (Buffer.contents buf)
+    | id :: "F" :: _fmt :: cl :: "E" :: rest ->
+      (* internal/fs/tarfs unit case: F <format> <clean ids> E <raw:kind:content>* Q <path>* *)
+      let tbl = Array.of_list (list_of_commas cl) in
+      let clean r = let i = int_of_nat r in if i < Array.length tbl then nat_of_int tbl.(i) else r in
+      let rec split acc = function
+        | "Q" :: qs -> (List.rev acc, qs)
+        | x :: xs -> split (x :: acc) xs
+        | [] -> (List.rev acc, []) in
+      let (ents, qs) = split [] rest in
+      let tar = List.map (fun t ->
+        match String.split_on_char ':' t with
+        | [r; k; c] -> { te_raw = nat_of_int (ios r); te_kind = (if k = "r" then TReg else TOther);
+                         te_data = nat_of_int (ios c) }
+        | _ -> failwith "tar entry") ents in
+      let outs = List.map (fun q ->
+        match tar_open clean tar (nat_of_int (ios q)) with
+        | FData c -> "D" ^ string_of_int (int_of_nat c)
+        | FNotExist -> "N"
+        | FUnsupported -> "U") qs in
+      Printf.printf "%s %s\n" id (String.concat " " outs)
     | [] -> ()
     | _ -> Printf.printf "BADLINE %s\n" l)
